@@ -7,6 +7,7 @@ import (
 	stdlog "log"
 	"os"
 	"path/filepath"
+	"regexp"
 	"strings"
 	"time"
 
@@ -192,11 +193,15 @@ func (s *sys) crash() {
 	s.c.Count("fault.core_crash")
 }
 
+var tmpDirRe = regexp.MustCompile(`/var/tmp/vhcore[0-9]+`)
+
+// errStr renders an error for the canonical log: one line, and without the random name of the
+// run's temporary directory (task class names carry the repository path).
 func errStr(err error) string {
 	if err == nil {
 		return ""
 	}
-	return strings.ReplaceAll(err.Error(), "\n", " | ")
+	return tmpDirRe.ReplaceAllString(strings.ReplaceAll(err.Error(), "\n", " | "), "/var/tmp/vhcoreN")
 }
 
 // probePlugin is a minimal integration plugin (public plugin API): workflows may call sp.Probe().
